@@ -358,18 +358,22 @@ def tick_discipline(ctx: Ctx, py: PyProgram) -> None:
                 ctx.violation("C13.6/tick-before-advance", key_of(EMU, "PCE500Emulator.step", "cycle counter advanced before the tick of the same step"),
                               f"`{unparse(a)}` (line {a.lineno}) runs before `_tick_timers()` (line {t.lineno}) on every path: the cycle value in between is never handed to the scheduler, a boundary on it fires a cycle late", f"{EMU}:{t.lineno}")
     # (c)
-    cls = py.need_cls(py.module(EMU), "PCE500Emulator")
     k = 0
-    for node in cls.node.body:
-        if isinstance(node, ast.FunctionDef) and node.name.startswith("_timer_") and any(unparse(d).endswith(".setter") for d in node.decorator_list):
-            for a in ast.walk(node):
-                if isinstance(a, ast.Assign):
-                    k += 1
-                    v = unparse(a.value).replace(" ", "")
-                    if v not in ("value", "int(value)", "bool(value)"):
-                        ctx.violation("C13.6/setter-exact", key_of(EMU, f"PCE500Emulator.{node.name}.setter", "value rewritten"),
-                                      f"the {node.name} setter stores `{unparse(a.value)}` instead of the value it is given: a period of 0 (timer off) or a restored snapshot value is silently changed", f"{EMU}:{a.lineno}")
-    ctx.need(k >= 4, f"timer property setters not found ({k})")
+    for rel, cname, pref in ((EMU, "PCE500Emulator", "_timer_"), (SCHED, "TimerScheduler", "")):
+        cls = py.need_cls(py.module(rel), cname)
+        for node in cls.node.body:
+            if isinstance(node, ast.FunctionDef) and node.name.startswith(pref) and any(unparse(d).endswith(".setter") for d in node.decorator_list):
+                prm = [a_.arg for a_ in node.args.args if a_.arg != "self"]
+                p0 = prm[0] if prm else "value"
+                for a in ast.walk(node):
+                    if isinstance(a, ast.Assign):
+                        k += 1
+                        v = unparse(a.value).replace(" ", "")
+                        if v not in (p0, f"int({p0})", f"bool({p0})"):
+                            ctx.violation("C13.6/setter-exact", key_of(rel, f"{cname}.{node.name}.setter", "value rewritten"),
+                                          f"the {cname}.{node.name} setter stores `{unparse(a.value)}` instead of the value it is given: a period of 0 (timer off), a restored snapshot target or a target beyond some bound is silently changed, "
+                                          "so the timer fires off its period grid", f"{rel}:{a.lineno}")
+    ctx.need(k >= 6, f"timer property setters not found ({k})")
     ctx.instance("C13.6/tick-discipline", "all fired sources latched; tick precedes the cycle advance; timer setters store their argument", n + k, 8)
 
 
@@ -400,6 +404,28 @@ def target_ownership(ctx: Ctx, py: PyProgram, rs: RustProgram) -> None:
         if not ok:
             ctx.violation("C13.2/reset-target", key_of(SCHED, "TimerScheduler.reset", f"{fld}"),
                           f"reset does not arm {fld} as `{base[0] if base else 'base'} + {per}` unconditionally ({[unparse(s_.value)[:60] for s_ in stores]}): a target left at or before the current cycle fires on the first tick after the timers are enabled, without a period boundary having been crossed", f"{SCHED}:{rst.lineno}")
+    # (b2) the base the scheduler is re-armed from is the cycle counter the machine continues with: in every emulator method that calls
+    # scheduler.reset, the value of cycle_base at the call equals the value self.cycle_count has when the method returns
+    rst_default = None
+    for a_, d_ in zip(rst.args.kwonlyargs, rst.args.kw_defaults):
+        if a_.arg == (base[0] if base else None) and d_ is not None:
+            rst_default = unparse(d_)
+    for mname, m in cls.methods.items():
+        calls_ = [c for c in ast.walk(m) if isinstance(c, ast.Call) and isinstance(c.func, ast.Attribute) and c.func.attr == "reset" and (attr_chain(c.func.value) or "").endswith("_scheduler")]
+        for c in calls_:
+            n += 1
+            arg = next((unparse(k.value) for k in c.keywords if k.arg == (base[0] if base else None)), unparse(c.args[0]) if c.args else rst_default)
+            assigns = sorted([a for a in ast.walk(m) if isinstance(a, ast.Assign) and any(attr_chain(t) == "self.cycle_count" for t in a.targets)], key=lambda a: a.lineno)
+            before = [a for a in assigns if a.lineno < c.lineno]
+            after = [a for a in assigns if a.lineno > c.lineno]
+            at_call = unparse(before[-1].value) if before else "self.cycle_count"
+            at_exit = unparse(after[-1].value) if after else at_call
+            arg_val = at_call if arg == "self.cycle_count" else arg
+            norm = lambda t: "0" if t in ("0", "int(0)") else t
+            if norm(arg_val or "?") != norm(at_exit):
+                ctx.violation("C13.2/reset-base", key_of(EMU, f"PCE500Emulator.{mname}", "scheduler re-armed from a different cycle than the machine continues with"),
+                              f"PCE500Emulator.{mname} re-arms the scheduler with cycle_base = {arg_val} but leaves self.cycle_count = {at_exit}: the targets sit at a stale base + period while time restarts elsewhere, "
+                              "so every period boundary between the two is skipped (or fires at once)", f"{EMU}:{c.lineno}")
     # (c)
     writers: set[str] = set()
     calls: dict[str, set[str]] = {}
